@@ -36,6 +36,63 @@ def scale (ν : Numeral) (n : Int) : Numeral := { ν with exp := some (ν.e + n)
 def WF (ν : Numeral) : Prop := ν.hasDot = false → ν.frac = []
 end Numeral
 
+/-! ## characters: how a numeral is written and read
+
+`render` writes the tokenised numeral the way the harness hands it to Python (no `+`, lower-case
+`e`); `parse` reads a string the way `sgnumber` / `Decimal` do after `strip().lower()`: split once
+at `e`, optional sign, split once at `.`, decimal digits, optional signed exponent.
+`Pun.Props.C20` proves `parse (render ν) = some ν`. -/
+
+def digitChar (d : Nat) : Char := Char.ofNat (48 + d)
+
+def natDigitsAux : Nat → Nat → List Nat → List Nat
+  | 0, _, acc => acc
+  | fuel + 1, n, acc => if n < 10 then n :: acc else natDigitsAux fuel (n / 10) (n % 10 :: acc)
+
+/-- decimal digits of a natural number, most significant first -/
+def natDigits (n : Nat) : List Nat := natDigitsAux (n + 1) n []
+
+def renderInt (e : Int) : List Char :=
+  (if e < 0 then ['-'] else []) ++ (natDigits e.natAbs).map digitChar
+
+def render (ν : Numeral) : List Char :=
+  (if ν.neg then ['-'] else []) ++ ν.int.map digitChar ++
+  (if ν.hasDot then '.' :: ν.frac.map digitChar else []) ++
+  (match ν.exp with | none => [] | some e => 'e' :: renderInt e)
+
+/-- `str.split(c, 1)` -/
+def splitOnce (c : Char) : List Char → List Char × Option (List Char)
+  | [] => ([], none)
+  | x :: xs => if x = c then ([], some xs) else
+      let r := splitOnce c xs
+      (x :: r.1, r.2)
+
+def charDigit (c : Char) : Option Nat :=
+  if '0' ≤ c ∧ c ≤ '9' then some (c.toNat - 48) else none
+
+def parseDigits (s : List Char) : Option (List Nat) := s.mapM charDigit
+
+/-- optional sign: (negative?, rest) -/
+def parseSign : List Char → Bool × List Char
+  | '-' :: r => (true, r)
+  | '+' :: r => (false, r)
+  | r => (false, r)
+
+/-- `int(text)` for an optionally signed non-empty decimal digit string -/
+def parseIntC (s : List Char) : Option Int :=
+  let (ng, body) := parseSign s
+  if body = [] then none else
+  (parseDigits body).map (fun ds => if ng then - (digitsVal ds : Int) else (digitsVal ds : Int))
+
+def parse (s : List Char) : Option Numeral :=
+  let (mant, ex) := splitOnce 'e' (s.map Char.toLower)
+  let (ng, body) := parseSign mant
+  let (ip, fp) := splitOnce '.' body
+  match parseDigits ip, (match fp with | none => some [] | some x => parseDigits x),
+        (match ex with | none => some none | some x => (parseIntC x).map some) with
+  | some i, some f, some e => if i = [] ∧ f = [] then none else some ⟨ng, i, f, fp.isSome, e⟩
+  | _, _, _ => none
+
 /-- `str.rstrip("0")` on the digit string -/
 def rstrip0 (ds : List Nat) : List Nat := (ds.reverse.dropWhile (· == 0)).reverse
 
